@@ -254,7 +254,12 @@ Expand(d, steps, acc) ==
 EffWeight(x) == IF x.weight = <<>> THEN WeightDefault ELSE x.weight[1]
 Copies(d, i) == LET g == GcdSeq([j \in DOMAIN d.scenarios |-> EffWeight(d.scenarios[j])]) IN
                 IF Len(d.scenarios) = 1 THEN 1 ELSE IF g = 0 THEN 0 ELSE EffWeight(d.scenarios[i]) \div g
-AScenario(d, x) == [name |-> x.name, mwt |-> Drop("mwt", OptNum(x.mwt), 0), steps |-> Expand(d, x.steps, <<>>)]
+\* the variables every ammo carries: per source name what the templates see -- for a `variables` source its map
+\* (numbers stay numbers), for file sources the file's content (not modelled: empty)
+AVars(d) == [nm \in {d.sources[i].name : i \in DOMAIN d.sources} |->
+               DSource(d.sources[CHOOSE i \in DOMAIN d.sources : d.sources[i].name = nm]).variables]
+AScenario(d, x) == [name |-> x.name, mwt |-> Drop("mwt", OptNum(x.mwt), 0), steps |-> Expand(d, x.steps, <<>>),
+                    vars |-> AVars(d)]
 Ammo(d) == Flat([i \in DOMAIN d.scenarios |-> Rep(AScenario(d, d.scenarios[i]), Copies(d, i))])
 
 \* ---------------------------------------------------------------- the case space
